@@ -2,7 +2,7 @@
 # usage: tools/run_all.sh quick|thorough  -- runs every registered check sequentially, logs under /tmp/runall_<tier>/
 TIER=${1:-quick}
 OUT=/tmp/runall_$TIER; mkdir -p $OUT
-cd /verif
+cd "$(dirname "$0")/.."
 for C in $(python3 -c "import json; print(' '.join(c['property_id'] for c in json.load(open('MANIFEST.json'))['checks']))"); do
   S=$(date +%s)
   ./check $C --tier $TIER > $OUT/$C.log 2>&1
